@@ -17,7 +17,7 @@ MANIFEST = {
     "engine": "E1-linsys",
     "technique": "bounded exhaustive enumeration of (pipeline,T,k,start[,k',start']) with one-hot impulse histories through the real Recorder.compress/decompress against the interpolation-matrix reference model; jitted replays of dense histories for conformance",
     "text": "For every total step count T, every k, every start step and every pipeline shape of the bound ([], every-k, dtype->every-k, every-k->dtype, every-k->every-k', dtype alone) the real Recorder is driven over the whole history of one-hot impulses; the tabulated decompression weights are compared with the two-point interpolation matrix built from the statement, for every step at or after the start step; widening conversions are compared bit for bit.",
-    "note": "States = (pipeline,T,k,start,t') rows at or after the start step; transitions = real compress/decompress calls; traces = dense histories replayed through jit+fori_loop with traced time step and compared with the table. Nested every-k uses k' in {2,3}, start' in {0,1}.",
+    "note": "States = (pipeline,T,k,start,t') rows at or after the start step; transitions = real compress/decompress calls; traces = dense histories replayed through jit+fori_loop with traced time step and compared with the table. Nested every-k uses (k',start') in {(2,1),(3,0)} (quick) / {2,3}x{0,1} (thorough).",
 }
 RULE = (
     "case = (pipeline kind, T, k); inside a case every start step 0..T-1 (and for nested filters every (k',start') of the "
@@ -34,8 +34,7 @@ ASSUMPTIONS = [
 TOL64 = 1e-9
 TOL32 = 1e-6
 
-KINDS = ["none", "D", "E", "DE", "ED", "EE"]
-K2MENU = {"quick": [(2, 1), (3, 0)], "thorough": [(2, 0), (2, 1), (3, 1)]}
+K2MENU = {"quick": [(2, 1), (3, 0)], "thorough": [(2, 0), (2, 1), (3, 0), (3, 1)]}
 SECOND_CONV_T = {"quick": 8, "thorough": 16}  # the second dtype pair of DE/ED is enumerated for T up to this bound
 CONV_EXACT = [("f32", "f64"), ("c64", "c128"), ("f64", "f64"), ("f32", "f32"), ("c128", "c128")]
 CONV_NARROW = [("f64", "f32"), ("c128", "c64")]
@@ -89,7 +88,7 @@ def bounds(tier, seed):
             "ED": f"[every-k, DtypeConversion] for {DE_CONV[1]} at every T, and {DE_CONV[0]} for T <= {SECOND_CONV_T[tier]}",
             "EE": f"[every-k(k,start), every-k(k',start')] for (k',start') in {K2MENU[tier]}, start' < slots of the first filter",
         },
-        "histories": "one-hot impulse at every t (vector of length T), every t' >= start decompressed; dtype-only/no-module pipelines and all jitted replays carry a dense all-distinct/seed history of shape (2,3) as a second key",
+        "histories": "one-hot impulse at every t (vectors of fixed length Tmax, entries >= T must stay 0), every t' >= start decompressed; dtype-only/no-module pipelines and all jitted replays carry a dense all-distinct/seed history of shape (2,3) as a second key",
         "traces": f"jit+fori_loop replays for T in {TRACE_T[tier]}, k in (2,{Kmax}), start in (0,1), first dtype pair / (k',start')=(2,1)",
         "tolerance": {"float64": TOL64, "float32-paths": TOL32, "saved steps / widening": "=="},
         "seed": seed,
